@@ -63,6 +63,9 @@ def build_models(sig, names, extra_meta=None):
             if ms.get('idx'):
                 idxs = []
                 for ix in ms['idx']:
+                    if ix.get('expr', NONE) not in (NONE, None):
+                        idxs.append(models.Index(models.F(names.field(ix['expr'])), name=ix['name']))
+                        continue
                     kw = {'fields': [names.field(x) for x in ix['fields']]}
                     if ix.get('name', NONE) != NONE:
                         kw['name'] = ix['name']
